@@ -455,7 +455,7 @@ def enum_resume(tier):
                 yield {"k": SEED * 104729 + i, "acc_id": "AA:BB:CC:DD:EE:FF", "ios_id": "ios-1", "fault": [name, p], "chain": chain}
 
 
-from props.ble_layers import C01_BLE_LAYERS  # noqa: E402
+from props.ble_layers import C01_BLE_LAYERS, C01_IP_LAYERS  # noqa: E402
 from props.coap_layers import C01_COAP_LAYERS  # noqa: E402
 
 SPEC = Property(
@@ -475,6 +475,7 @@ SPEC = Property(
         Layer("resume-families", run_resume, enumerate=enum_resume, exhaustive=True, space="every resume fault incl. all 128 tag bits and 64 session-id bits, chain 0/1", min_nontrivial=100),
         Layer("resume-gen", run_resume, strategy=resume_cases, n={"quick": 4000, "thorough": 60000}, min_nontrivial=100),
         *C01_BLE_LAYERS,
+        *C01_IP_LAYERS,
         *C01_COAP_LAYERS,
     ],
     assumptions=["reference accessory (vlib/refhap.py RefPairVerify) written from HAP R2 5.7 and the HAP-BLE resume procedure",
